@@ -124,6 +124,7 @@ struct SendRec {
     std::vector<int> overflow;           // eligible slots whose mailbox was full (no obligation)
     std::map<int, int> delivered;        // slot -> times delivered (outside unstash)
     std::set<int> dead;                  // slot: recipient left RUNNING/PAUSED (or PAUSED at loop end) before delivery
+    std::set<int> low_matched;           // slot: a matching subscription was a low-priority one (the message may be parked until the next normal event)
     std::set<int> oneshot_matched;       // slot: the matching subscription was a one-shot one (may legitimately be discarded)
     std::set<int> unknown;               // slot: recipient was not RUNNING at some point of the final flush: the message may or may not have been discarded
 };
